@@ -209,15 +209,33 @@ func (w *World) Generate(h *Harness) (res *HarnessResult) {
 	rets := e.execBody(fn, st)
 	// vacuity guard: the end of the harness must be reachable
 	reach := 0
+	tried := 0
 	for _, r := range rets {
 		if !e.dead(r.st) {
 			if e.paths && !e.feasible(r.st) {
 				continue
 			}
+			if e.paths && tried < 16 && e.W.TmpDir != "" {
+				// path mode: look for an end state the solver confirms satisfiable
+				tried++
+				q := &smt.Query{}
+				q.Asserts = append(q.Asserts, e.axioms...)
+				q.Asserts = append(q.Asserts, e.coverPC(r.st)...)
+				res := smt.SolveText(e.C.Print(q, false), "", 0, smt.DefaultSolvers(5)[:1], e.W.TmpDir, fmt.Sprintf("%s.coverpick%d", h.Name, tried), 5, 1)
+				if res.Status != smt.Sat && tried < 16 {
+					continue
+				}
+			}
 			reach++
-			e.obls = append(e.obls, &Obligation{Name: h.Name + "#cover:end", Kind: KindCover, Harness: h.Name, Pos: e.posStr(fn.Pos()),
+			name := h.Name + "#cover:end"
+			if reach > 1 {
+				name = fmt.Sprintf("%s@%d", name, reach)
+			}
+			e.obls = append(e.obls, &Obligation{Name: name, Kind: KindCover, Harness: h.Name, Pos: e.posStr(fn.Pos()),
 				Msg: "end of harness reachable (assumptions are not contradictory)", PC: e.coverPC(r.st), Goal: e.C.True(), ctx: e})
-			break
+			if reach >= 3 {
+				break
+			}
 		}
 	}
 	if reach == 0 {
